@@ -144,7 +144,8 @@ func judge(W []*wrec, out decOut, maxReq int, intact int, strict bool, what stri
 							sig = "records lost from a rotated file are skipped silently: reading continues with the next file without an error"
 						}
 						return verdict{"gap", sig,
-							fmt.Sprintf("position %d returned written message #%d %s; expected #%d %s or an error", i, j, brief(m.Msg), i, brief(W[i].msg))}
+							fmt.Sprintf("position %d returned written message #%d %s (written at %s); expected #%d %s (written at %s) or an error",
+								i, j, brief(m.Msg), W[j].t.Format("15:04:05.000"), i, brief(W[i].msg), W[i].t.Format("15:04:05.000"))}
 					}
 				}
 			}
